@@ -267,6 +267,8 @@ def check(ctx):
     from .c35 import deferred_requeued, datagram_send_reraises
     deferred_requeued(ctx, "T6-dgram")
     datagram_send_reraises(ctx, "T6-dgram")
+    from .c35 import txqueue_discipline_is_gramstacks
+    txqueue_discipline_is_gramstacks(ctx, "GramStack", "T6-dgram")
     ctx.floor("handlers", handlers, 11)
     found = defects.run(ctx.repo, [ctx.cls(m, c).own_method(x) for m, c, _ in STREAM for x in ("receive", "send")] +
                         [G.own_method("_serviceOneTxPkt"), G.own_method("_serviceOneReceived")], ("D8", "D1"))
